@@ -41,6 +41,10 @@ def gen(rng, tier):
         except (iu.Refused, UnicodeEncodeError):
             continue
         cases.append({'kind': 'decode', 'cfg': cfg, 'codec': codec, 'bytes': b.hex(), 'pan': pan, 'bit': k, 'proc': proc})
+        if i % 4 == 0:
+            # the same message decoded in one process under the configuration with the processor switched in place
+            # (none -> PAN -> PAN-PREFIX -> none), and under fresh copies of the configuration created and dropped
+            cases.append({'kind': 'switch', 'cfg': cfg, 'codec': codec, 'bytes': b.hex(), 'pan': pan, 'bit': k})
     return cases
 
 
@@ -50,12 +54,33 @@ def impl(case):
         return {'out': outcome(lambda: card.mask(case['s'], case['mc']), hs)}
     from cardutil import iso8583
     b = bytes.fromhex(case['bytes'])
+    if case['kind'] == 'switch':
+        import copy
+        import gc
+        cfg, k = case['cfg'], case['bit']
+        outs = []
+        for mode in ('inplace', 'fresh'):
+            for proc in (None, 'PAN', 'PAN-PREFIX', None, 'PAN'):
+                c = cfg if mode == 'inplace' else copy.deepcopy(cfg)
+                if proc:
+                    c[k]['field_processor'] = proc
+                else:
+                    c[k].pop('field_processor', None)
+                try:
+                    outs.append([mode, proc, iso8583.loads(b, encoding=case['codec'], iso_config=c).get('DE' + k)])
+                except Exception as ex:
+                    outs.append([mode, proc, 'RAISE ' + type(ex).__name__])
+                del c
+                gc.collect()
+        return {'out': 'OK', 'seq': outs}
     return {'out': outcome(lambda: iso8583.loads(b, encoding=case['codec'], iso_config=case['cfg']), iu.dict_text)}
 
 
 def model_lines(case, io_):
     if case['kind'] == 'mask':
         return ['mask %s %s' % (hs(case['s']), hs(case['mc']))]
+    if case['kind'] == 'switch':
+        return []
     return ['loads %s %s 0 %s' % (iu.cfg_text(case['cfg']), iu.hs(case['codec']), case['bytes'])]
 
 
@@ -73,6 +98,13 @@ def judge(case, io_, mo):
         if mo is not None and not ps and mo[0] != o:
             ps.append({'kind': 'corr', 'sig': 'mask', 'msg': 'mask differs from model: %s vs %s' % (o, mo[0])})
         return ps
+    if case['kind'] == 'switch':
+        pan = case['pan']
+        for mode, proc, got in io_['seq']:
+            want = pan if proc is None else pan[:6] + '*' * (len(pan) - 10) + pan[-4:] if proc == 'PAN' else pan[:9]
+            if got != want:
+                return [{'kind': 'oracle', 'sig': 'stale-configuration-' + mode, 'msg': 'after switching the processor to %s (%s) the element decodes to %r, expected %r' % (proc, mode, got, want)}]
+        return []
     if not o.startswith('OK '):
         return [{'kind': 'oracle', 'sig': 'decode-failed', 'msg': 'decoding a well-formed message failed: %s' % o}]
     d = iu.dict_of_text(o[3:])
@@ -97,4 +129,6 @@ def label(case):
     if case['kind'] == 'mask':
         n = len(case['s'])
         return 'mask/len=%s' % ('<10' if n < 10 else '10-19' if n < 20 else '20-40')
+    if case['kind'] == 'switch':
+        return 'switch-configuration'
     return 'decode/%s/%s' % (case['proc'], case['cfg'][case['bit']]['field_type'])
